@@ -89,8 +89,8 @@ pub fn check(c: &HistCase, info: &mut CaseInfo) -> Result<(), String> {
                 model_sleeping = true;
                 seen_sleep = true;
                 let wb = w.borrow();
-                if wb.panel.sleep_log.len() != n0 + 1 || wb.panel.sleep_log.last().map(|e| e.0) != Some(0x10) {
-                    return Err(format!("{}: sleep() did not send exactly one sleep-in command", when));
+                if wb.panel.sleep_log.len() > n0 + 1 || wb.panel.sleep_log[n0..].iter().any(|e| e.0 != 0x10) {
+                    return Err(format!("{}: sleep() sent {:x?}", when, &wb.panel.sleep_log[n0..]));
                 }
                 spacing(&wb, &when)?;
             }
@@ -104,8 +104,8 @@ pub fn check(c: &HistCase, info: &mut CaseInfo) -> Result<(), String> {
                 }
                 model_sleeping = false;
                 let wb = w.borrow();
-                if wb.panel.sleep_log.len() != n0 + 1 || wb.panel.sleep_log.last().map(|e| e.0) != Some(0x11) {
-                    return Err(format!("{}: wake() did not send exactly one sleep-out command", when));
+                if wb.panel.sleep_log.len() > n0 + 1 || wb.panel.sleep_log[n0..].iter().any(|e| e.0 != 0x11) {
+                    return Err(format!("{}: wake() sent {:x?}", when, &wb.panel.sleep_log[n0..]));
                 }
                 spacing(&wb, &when)?;
             }
@@ -193,8 +193,8 @@ fn sig(_c: &HistCase, reason: &str) -> String {
         "flag"
     } else if reason.contains("apart") || reason.contains("returned") {
         "spacing"
-    } else if reason.contains("exactly one") {
-        "command-count"
+    } else if reason.contains("() sent") {
+        "wrong-command"
     } else {
         "other"
     };
@@ -208,7 +208,7 @@ pub fn run(ctx: &Ctx) -> Report {
         &format!("histories[{}]", ctx.variant),
         "init of any model on any transport (with or without reset pin), then 0..24 operations over {sleep, wake, sleep/wake whose first bus operation fails, set_pixel, fill_solid, set_orientation, scroll region/offset, tearing, query}; after every step: reference flag == is_sleeping() == sleep state of the simulated controller; every 0x10/0x11 is followed by >= 120 ms before the call returns and before the next of them; non-trivial = history has a sleep/wake transition or a repeated sleep/wake",
     );
-    run_generated(&mut sec, ctx.seed, ctx.cases(60_000, 2_000_000), ctx.workers, strategy, check, sig);
+    run_generated(&mut sec, ctx.seed, ctx.cases(300_000, 8_000_000), ctx.workers, strategy, check, sig);
     rep.sections.push(sec);
     rep
 }
